@@ -239,6 +239,7 @@ class Prover:
         exact = (not self.env.inexact) and not self.force_tolerance
         cons = None
         out = []
+        streak = 0  # consecutive obligations on which both solvers gave up
         for (label, dz), (_, dl) in zip(zs, ls):
             lv = self.laurent_verdict(dl, exact)
             g = self.goal(dz, exact)
@@ -248,12 +249,20 @@ class Prover:
             elif g is True:
                 verdict, stage = "violated", "constant-folded"
                 witness = self.witness_from_laurent(dl)[0] or self._default_witness()
+            elif streak >= 3 and lv in ("holds", "violated"):
+                # the solvers gave up on three obligations of this family in a row: decide the rest
+                # by the exact Fourier certificate directly (counted apart)
+                verdict, stage = lv, "C:fourier-certificate"
+                if lv == "violated":
+                    witness = self.witness_from_laurent(dl)[0]
             else:
                 if cons is None:
                     cons = self.constraints(exact)
                 r, model, dt, s = z3_query(cons, g, self.timeout_ms)
                 res.d["solver_s"] += dt
                 res.d["solver_queries"] += 1
+                if r in ("sat", "unsat"):
+                    streak = 0
                 if r == "unsat":
                     verdict, stage = "holds", "A:z3"
                 elif r == "sat":
@@ -273,6 +282,7 @@ class Prover:
                         witness = self.witness_from_laurent(dl)[0]
                     else:
                         # Stage C
+                        streak += 1
                         if lv == "holds":
                             verdict, stage = "holds", "C:fourier-certificate"
                         elif lv == "violated":
